@@ -156,4 +156,114 @@ def qbfs (sqrt : K → K) (n : Nat) (x : K) : K :=
   let rho := x * x
   (qbfsPQ sqrt rho n).2.2.1 * (rho * (nat 1 - rho))
 
+/-! ## 2D-Q (Forbes 2012, Opt. Express 20(3) 2483, appendix A): `A,B,C` (A.3), `γ`, `F` (A.13), `G` (A.15), `f,g` (A.18),
+    auxiliary polynomials `P_n^m` (A.4–A.6 seeds) and `Q_n^m = (P_n^m − g_{n−1}^m Q_{n−1}^m) / f_n^m` -/
+
+/-- `abc_q2d(n, m)`: Forbes (A.3), `n` and `m` read as scalars -/
+def q2dAbcK (n m : K) : K × K × K :=
+  let two : K := nat 2
+  let D := (nat 4 * (n * n) - nat 1) * (m + n - two) * (m + two * n - nat 3)
+  let A := ((two * n - nat 1) * (m + two * n - two)) * (nat 4 * n * (m + n - two) + (m - nat 3) * (two * m - nat 1)) / D
+  let B := (Num.ofInt (-2) * (two * n - nat 1) * (m + two * n - nat 3) * (m + two * n - two) * (m + two * n - nat 1)) / D
+  let C := (n * (two * n - nat 3) * (m + two * n - nat 1) * (two * m + two * n - nat 3)) / D
+  (A, B, C)
+
+/-- `k!` and `k!!` as scalars (`scipy.special.factorial`, `factorial2` at non-negative integers) -/
+def factK : Nat → K
+  | 0 => nat 1
+  | k+1 => nat (k+1) * factK k
+def fact2K : Nat → K
+  | 0 => nat 1
+  | 1 => nat 1
+  | k+2 => nat (k+2) * fact2K k
+def factI (k : Int) : K := factK k.toNat
+def fact2I (k : Int) : K := fact2K k.toNat
+
+/-- `gamma(1, m)` of `prysm.mathops` for `m ≥ 2`: `3/8` at `m = 2`, then `γ_1^m = (2m−1)/(2(m−2)) · γ_1^{m−1}` -/
+def q2dGamma1 : Nat → K
+  | 0 => Num.ofFrac 3 8
+  | 1 => Num.ofFrac 3 8
+  | 2 => Num.ofFrac 3 8
+  | m+3 => nat (2 * (m+2) + 1) / nat (2 * (m+1)) * q2dGamma1 (m+2)
+
+/-- `gamma(n, m)` of `prysm.mathops` for `n ≥ 1`, `m ≥ 2`: `γ_n^m = n(2m+2n−3) / ((m+n−3)(2n−1)) · γ_{n−1}^m`
+    (the Python function does not terminate for `n = 0`; the value given here for `n = 0` is never read) -/
+def q2dGamma : Nat → Nat → K
+  | 0, _ => nat 1
+  | 1, m => q2dGamma1 m
+  | n+2, m =>
+    (nat (n+2) * (nat 2 * nat m + nat 2 * nat (n+2) - nat 3)) / ((nat m + nat (n+2) - nat 3) * (nat 2 * nat (n+2) - nat 1))
+      * q2dGamma (n+1) m
+def q2dGammaI (n m : Int) : K := q2dGamma n.toNat m.toNat
+
+/-- `G_q2d(n, m)`: Forbes (A.15) -/
+def q2dG (n m : Nat) : K :=
+  let N : K := nat n
+  let Mk : K := nat m
+  if n = 0 then fact2K (2 * m - 1) / (Num.npow (nat 2) (m + 1) * factK (m - 1))
+  else if m = 1 then
+    -((nat 2 * (N * N) - nat 1) * (N * N - nat 1)) / (nat 8 * (nat 4 * (N * N) - nat 1)) - Num.ofFrac 1 24 * kroneckerK n 1
+  else
+    -((nat 2 * N * (Mk + N - nat 1) - Mk) * ((N + nat 1) * (nat 2 * Mk + nat 2 * N - nat 1)))
+        / (((Mk + nat 2 * N - nat 2) * (Mk + nat 2 * N - nat 1)) * ((Mk + nat 2 * N) * (nat 2 * N + nat 1)))
+      * q2dGamma n m
+
+/-- `F_q2d(n, m)`: Forbes (A.13) -/
+def q2dF (n m : Nat) : K :=
+  let N : K := nat n
+  let Mk : K := nat m
+  if n = 0 ∧ m = 1 then Num.ofFrac 1 4
+  else if n = 0 then Mk * Mk * fact2K (2 * m - 3) / (Num.npow (nat 2) (m + 1) * factK (m - 1))
+  else if m = 1 then
+    (nat 4 * ((N - nat 1) * (N - nat 1)) * (N * N) + nat 1) / (nat 8 * ((nat 2 * N - nat 1) * (nat 2 * N - nat 1)))
+      + Num.ofFrac 11 32 * kroneckerK n 1
+  else
+    let χ := Mk + N - nat 2
+    (nat 2 * N * χ * (nat 3 - nat 5 * Mk + nat 4 * N * χ) + Mk * Mk * (nat 3 - Mk + nat 4 * N * χ))
+        / (((Mk + nat 2 * N - nat 3) * (Mk + nat 2 * N - nat 2)) * ((Mk + nat 2 * N - nat 1) * (nat 2 * N - nat 1)))
+      * q2dGamma n m
+
+/-- `(f_n^m, g_n^m)` (A.18): `f_0 = sqrt F_0`, `g_n = G_n / f_n`, `f_{n+1} = sqrt(F_{n+1} − g_n²)` -/
+def q2dFG (sqrt : K → K) (m : Nat) : Nat → K × K
+  | 0 => let f := sqrt (q2dF 0 m); (f, q2dG 0 m / f)
+  | n+1 =>
+    let s := q2dFG sqrt m n
+    let f := sqrt (q2dF (n+1) m - s.2 * s.2)
+    (f, q2dG (n+1) m / f)
+def q2df (sqrt : K → K) (n m : Nat) : K := (q2dFG sqrt m n).1
+def q2dg (sqrt : K → K) (n m : Nat) : K := (q2dFG sqrt m n).2
+/-- `f_q2d(n, m)`, `g_q2d(n, m)` with Python `int` arguments -/
+def q2dfI (sqrt : K → K) (n m : Int) : K := q2df sqrt n.toNat m.toNat
+def q2dgI (sqrt : K → K) (n m : Int) : K := q2dg sqrt n.toNat m.toNat
+def q2dFI (n m : Int) : K := q2dF n.toNat m.toNat
+def q2dGI (n m : Int) : K := q2dG n.toNat m.toNat
+
+/-- `P_1^m(x)`: `1 − x/2` for `m = 1`, `(m − ½) + (1 − m) x` otherwise (A.5, A.6) -/
+def q2dP1 (m : Nat) (x : K) : K :=
+  if m = 1 then nat 1 - x / nat 2 else (nat m - Num.ofFrac 1 2) + (nat 1 - nat m) * x
+
+/-- `P_{k+2}^m` from `P_k^m` (`pk`) and `P_{k+1}^m` (`pk1`): the hand-seeded `P_2^1`, `P_3^1` (A.6), otherwise (A.2) with `abc(k+1, m)` -/
+def q2dPnext (m k : Nat) (x pk pk1 : K) : K :=
+  if m = 1 ∧ k = 0 then (nat 3 - x * (nat 12 - nat 8 * x)) / nat 6
+  else if m = 1 ∧ k = 1 then (nat 5 - x * (nat 60 - x * (nat 120 - nat 64 * x))) / nat 10
+  else
+    let t := q2dAbcK (nat (k+1)) (nat m)
+    (t.1 + t.2.1 * x) * pk1 - t.2.2 * pk
+
+/-- `(P_n^m, P_{n+1}^m, Q_n^m)` in `x = u²` -/
+def q2dPQ (sqrt : K → K) (m : Nat) (x : K) : Nat → K × K × K
+  | 0 => (Num.ofFrac 1 2, q2dP1 m x, nat 1 / (nat 2 * q2df sqrt 0 m))
+  | k+1 =>
+    let s := q2dPQ sqrt m x k
+    (s.2.1, q2dPnext m k x s.1 s.2.1, (s.2.1 - q2dg sqrt k m * s.2.2) * (nat 1 / q2df sqrt (k+1) m))
+
+/-- the radial factor `Q_n^m(x)` (without `u^m`), `m ≥ 1` -/
+def q2dRadial (sqrt : K → K) (n m : Nat) (x : K) : K := (q2dPQ sqrt m x n).2.2
+
+/-- `Q2d(n, m, r, t)`: `Qbfs(n, r)` for `m = 0`; otherwise `Q_n^{|m|}(r²) · r^{|m|} · az` with `az = cos(mθ)` (`m > 0`) or
+    `sin(|m|θ)` (`m < 0`) supplied by the caller -/
+def q2d (sqrt : K → K) (n : Nat) (m : Int) (r az : K) : K :=
+  if m = 0 then qbfs sqrt n r
+  else q2dRadial sqrt n m.natAbs (r * r) * (Num.npow r m.natAbs * az)
+
 end Model.C07
